@@ -370,7 +370,7 @@ impl<W: Write> Recorder<W> {
             };
             self.rec(json!({"ev": "begin", "alt": alt, "from": c.from, "mode": if matches!(c.mode, Mode::Slice) {"slice"} else {"reader"},
                             "streaming": streaming, "known": o.known, "ndocs": o.ndocs, "badAt": o.bad_at,
-                            "class": crate::scen::input_class(&c.bytes, c.from, case.to)}));
+                            "class": crate::scen::input_class(case.key_text.as_ref().map(|t| t.as_slice()).unwrap_or(&c.bytes), c.from, case.to)}));
             let mut delivered = 0usize;
             let mut pos_before = 0usize;
             for e in &log_v[o.log_range.0..o.log_range.1] {
@@ -457,7 +457,9 @@ impl<W: Write> Recorder<W> {
                             Ok(d) => d.len() == upto.len() && d.iter().zip(upto.iter()).all(|(a, b)| a == *b),
                             Err(_) => false,
                         },
-                        "yaml" => so_far.split(|b| *b == b'\n').filter(|l| *l == b"---").count() == upto.len(),
+                        // (lines as libyaml and every YAML 1.1 reader see them: LF, CR, NEL, LS and PS all end a line -
+                        // the emitter relies on that when a block scalar ends with one of them)
+                        "yaml" => String::from_utf8_lossy(so_far).split(['\n', '\r', '\u{85}', '\u{2028}', '\u{2029}']).filter(|l| *l == "---").count() == upto.len(),
                         _ => true,
                     }
                 }
